@@ -217,11 +217,15 @@ impl Renderer {
             Mode::Sim => "/nx",
             Mode::Real => "/nonexistent-yv",
         };
+        // (the simulated file system creates missing parent directories on
+        // output redirections, so only input redirections fail there)
+        let real = self.mode == Mode::Real;
         match self.pick(5) {
             0 | 1 => format!("<{}{base}/f", self.osp()),
-            2 => format!(">{}{base}/d/f", self.osp()),
+            2 if real => format!(">{}{base}/d/f", self.osp()),
             3 => format!("3<{base}/f"),
-            _ => format!(">>{base}/d/f"),
+            4 if real => format!(">>{base}/d/f"),
+            _ => format!("<{base}/f"),
         }
     }
 
